@@ -213,7 +213,28 @@ def export_tables():
           and isinstance(n.func.value, ast.Constant)]
     if len(mf) != 1:
         raise TranslatorError("Measurement._to_qasm: expected one format string")
+    # how `_qasm_str` prints a parameter: `str(arg)` or `_qasm_real(arg)` (decimal point inserted before an exponent)
+    last = ast.unparse(fstr.body[-1])
+    old_print = ("if q_args is not None:\n    if isinstance(q_args, (list, tuple, np.ndarray)):\n"
+                 "        q_args = ','.join([str(arg) for arg in q_args])\n"
+                 "    return '{}({}) {};'.format(q_name, q_args, q_regs)\nelse:\n    return '{} {};'.format(q_name, q_regs)")
+    new_print = ("if q_args is not None:\n    if isinstance(q_args, (list, tuple, np.ndarray)):\n"
+                 "        q_args = ','.join([_qasm_real(arg) for arg in q_args])\n    else:\n"
+                 "        q_args = _qasm_real(q_args)\n"
+                 "    return '{}({}) {};'.format(q_name, q_args, q_regs)\nelse:\n    return '{} {};'.format(q_name, q_regs)")
+    freal = [n for n in qasm.body if isinstance(n, ast.FunctionDef) and n.name == "_qasm_real"]
+    if arg_test == "notNone" and last == new_print:
+        want = ["text = str(value)", "mantissa, exp, exponent = text.partition('e')",
+                "if exp and mantissa.lstrip('-').isdigit():\n    text = mantissa + '.0e' + exponent", "return text"]
+        if len(freal) != 1 or [ast.unparse(x) for x in freal[0].body[1:]] != want:
+            raise TranslatorError("_qasm_real: body not recognised")
+        pads_exp = True
+    elif last == old_print or (arg_test != "notNone" and last != new_print):
+        pads_exp = False
+    else:
+        raise TranslatorError("_qasm_str: printing of the parameters not recognised: " + last)
     return {
+        "pads_exp": pads_exp,
         "name_map": name_map, "defns": defns, "comment_fmt": split_fmt(comment_fmt, "definition comment", 1),
         "header": header, "qreg_fmt": split_fmt(cfmts[0], "qreg", 1), "creg_fmt": split_fmt(cfmts[1], "creg", 1),
         "measure_fmt": split_fmt(mf[0], "measure", 2), "arg_test": arg_test, "seq_kinds": kinds,
@@ -368,8 +389,149 @@ def import_tables():
             if ast.unparse(n.test).replace(" ", "") != "len(set(com_regs))!=len(com_regs)":
                 raise TranslatorError("_custom_gate: test on com_regs not recognised: " + ast.unparse(n.test))
             body_dup = True
+    flags = _import_variants(qp)
     return {"predefined": predefined, "qiskit": qiskit, "rows": rows, "user_gates": sorted(expect),
-            "sigs": sigs, "cv_check": cv_check, "body_dup": body_dup}
+            "sigs": sigs, "cv_check": cv_check, "body_dup": body_dup, **flags}
+
+
+def _chain(node):
+    """an if / elif / else chain -> [(test source, body)], else-body"""
+    out = []
+    while True:
+        out.append((ast.unparse(node.test), node.body))
+        if len(node.orelse) == 1 and isinstance(node.orelse[0], ast.If):
+            node = node.orelse[0]
+        else:
+            return out, node.orelse
+
+
+def _import_variants(qp):
+    """Which of the repairs of `_final_pass` / `_regs_processor` / `_gate_add` / `_initialize_pass` the checkout
+    has.  These functions are modelled by hand (Model/QasmImport.lean); the statements the model depends on are
+    recognised by their exact source, anything else is refused."""
+    U = ast.unparse
+    # _final_pass ---------------------------------------------------------------------------------
+    fp = _find(qp.body, ast.FunctionDef, "_final_pass")
+    loops = [n for n in fp.body if isinstance(n, ast.For)]
+    if len(loops) != 1 or U(loops[0].iter) != "self.commands" or len(loops[0].body) != 1 \
+            or not isinstance(loops[0].body[0], ast.If):
+        raise TranslatorError("_final_pass: loop over self.commands not recognised")
+    chain, orelse = _chain(loops[0].body[0])
+    tests = [t for t, _ in chain]
+    if [U(x) for x in orelse] != ["err = 'QASM: {} is not a valid QASM command.'.format(command[0])",
+                                  "raise SyntaxError(err)"]:
+        raise TranslatorError("_final_pass: else branch not recognised")
+    with_barrier = ["command[0] in self.gate_names", "command[0] == 'measure'", "command[0] == 'barrier'",
+                    "command[0] == 'if'"]
+    without_barrier = [t for t in with_barrier if "barrier" not in t]
+    if tests == with_barrier:
+        fp_barrier = True
+        if [U(x) for x in chain[2][1]] != ["self._regs_processor(command[1:], 'barrier')"]:
+            raise TranslatorError("_final_pass: barrier branch not recognised")
+    elif tests == without_barrier:
+        fp_barrier = False
+    else:
+        raise TranslatorError(f"_final_pass: branches not recognised: {tests}")
+    if [U(x) for x in chain[0][1]] != ["self._gate_add(qc, command, custom_gates)"]:
+        raise TranslatorError("_final_pass: gate branch not recognised")
+    if [U(x) for x in chain[1][1]] != [
+            "reg_set = self._regs_processor(command[1:], 'measure')",
+            "for regs in reg_set:\n    qc.add_measurement('M', targets=[regs[0]], classical_store=regs[1])"]:
+        raise TranslatorError("_final_pass: measure branch not recognised")
+    ifb = [U(x) for x in chain[-1][1]]
+    head = ["cbit_reg, classical_control_value = command[2].split('==')", "cbit_inds = self.cbit_regs[cbit_reg]",
+            "classical_control_value = int(classical_control_value)"]
+    tail = ["self._gate_add(qc, command[4:], custom_gates, cbit_inds, classical_control_value)"]
+    skip = ("if classical_control_value >= 2 ** len(cbit_inds):\n"
+            "    self._gate_add(QubitCircuit(qc.N), command[4:], custom_gates)\n    continue")
+    rev = "classical_control_value = int('{:0{}b}'.format(classical_control_value, len(cbit_inds))[::-1], 2)"
+    if not (ifb and ifb[0].startswith("warnings.warn(")):
+        raise TranslatorError("_final_pass: if branch not recognised")
+    mid = ifb[1:]
+    if mid[:3] != head or mid[-1:] != tail:
+        raise TranslatorError("_final_pass: if branch not recognised: " + " ; ".join(mid))
+    mid = mid[3:-1]
+    if mid == []:
+        if_skip, if_rev = False, False
+    elif mid == [skip]:
+        if_skip, if_rev = True, False
+    elif mid == [rev]:
+        if_skip, if_rev = False, True
+    elif mid == [skip, rev]:
+        if_skip, if_rev = True, True
+    else:
+        raise TranslatorError("_final_pass: treatment of the condition value not recognised: " + " ; ".join(mid))
+    # _regs_processor -------------------------------------------------------------------------------
+    rp = _find(qp.body, ast.FunctionDef, "_regs_processor")
+    ex = []
+    for n in ast.walk(rp):
+        if isinstance(n, ast.If) and "expand" in U(n.test):
+            ex.append("if " + U(n.test))
+        if isinstance(n, ast.Assign) and U(n.targets[0]) == "expand":
+            ex.append(U(n))
+    ex = sorted(ex)
+    variants = {
+        (False, False): ["expand = 0", "expand = len(qubit)", "if expand", "if expand and expand != len(qubit)"],
+        (True, False): ["expand = 0", "expand = len(qubit)", "if expand",
+                        "if reg_type != 'barrier' and expand and (expand != len(qubit))"],
+        (False, True): ["expand = None", "expand = len(qubit)", "if expand is not None",
+                        "if expand is not None and expand != len(qubit)"],
+        (True, True): ["expand = None", "expand = len(qubit)", "if expand is not None",
+                       "if reg_type != 'barrier' and expand is not None and (expand != len(qubit))"],
+    }
+    hit = [k for k, v in variants.items() if sorted(v) == ex]
+    if len(hit) != 1:
+        raise TranslatorError(f"_regs_processor: treatment of `expand` not recognised: {ex}")
+    rp_barrier, rp_empty = hit[0]
+    # _gate_add ---------------------------------------------------------------------------------------
+    ga = _find(qp.body, ast.FunctionDef, "_gate_add")
+    st = [U(x) for x in ga.body if not (isinstance(x, ast.Expr) and isinstance(x.value, ast.Constant))]
+    common_a = ["args, regs = _gate_processor(command)", "reg_set = list(self._regs_processor(regs, 'gate'))"]
+    name_if = ("if args:\n    gate_name = '{}({})'.format(command[0], ','.join(args))\nelse:\n"
+               "    gate_name = '{}'.format(command[0])")
+
+    def user_part(n):
+        return [
+            "if command[0] not in self.predefined_gates:\n    gate = self.qasm_gates[command[0]]\n"
+            f"    _check_arity(command[0], len(args), {n}, (len(gate.gate_args), len(gate.gate_regs)))",
+            "if command[0] not in self.predefined_gates and gate_name not in custom_gates:\n"
+            f"    n = {n}\n    qc_temp = QubitCircuit(n)\n"
+            "    self._custom_gate(qc_temp, [command[0], args, [str(i) for i in range(n)]])\n"
+            "    unitary_mat = qc_temp.compute_unitary()\n    custom_gates[gate_name] = unitary_mat",
+            "qc.user_gates = custom_gates"]
+    ev_old = "if command[0] in self.predefined_gates:\n    args = [_eval_param(arg) for arg in args]"
+    ev_new = (ev_old + "\n    if command[0] in _GATE_SIGNATURES:\n"
+              "        _check_arity(command[0], len(args), n_regs, _GATE_SIGNATURES[command[0]])")
+    old_ga = common_a + [name_if] + user_part("len(reg_set[0])") + [ev_old]
+    new_ga = common_a + ["n_regs = len(regs) - 3 * regs.count('[')", name_if] + user_part("n_regs") + [ev_new]
+    if st[:-1] == old_ga:
+        ga_empty = False
+    elif st[:-1] == new_ga:
+        ga_empty = True
+    else:
+        raise TranslatorError("_gate_add: statements before the loop not recognised")
+    loop = st[-1]
+    if not loop.startswith("for regs in reg_set:\n    regs = [int(i) for i in regs]\n"
+                           "    if len(set(regs)) != len(regs):\n        raise ValueError("):
+        raise TranslatorError("_gate_add: loop over reg_set not recognised")
+    # _initialize_pass: barrier statements ----------------------------------------------------------------
+    ip = _find(qp.body, ast.FunctionDef, "_initialize_pass")
+    sites = [(U(n.test), [U(x) for x in n.body]) for n in ast.walk(ip)
+             if isinstance(n, ast.If) and ("barrier" in U(n.test) or U(n.test) == "command[0] == 'include'")]
+    body_check = ("for reg in command[1:]:\n    if reg not in curr_gate.gate_regs:\n"
+                  "        raise ValueError('QASM: {} is not a qubit argument of gate {}'.format(reg, curr_gate.name))")
+    if sites == [("command[0] == 'barrier'", ["continue"]), ("command[0] in ['barrier', 'include']", ["continue"])]:
+        ip_barrier = False
+    elif sites == [("command[0] == 'barrier'", [body_check, "continue"]), ("command[0] == 'include'", ["continue"])]:
+        ip_barrier = True
+    else:
+        raise TranslatorError(f"_initialize_pass: treatment of barrier / include not recognised: {sites}")
+    if not (fp_barrier == rp_barrier == ip_barrier):
+        raise TranslatorError("barrier statements: _initialize_pass, _final_pass and _regs_processor do not belong to "
+                              "the same variant")
+    if rp_empty != ga_empty:
+        raise TranslatorError("empty registers: _regs_processor and _gate_add do not belong to the same variant")
+    return {"if_skip": if_skip, "if_rev": if_rev, "barrier_checked": fp_barrier, "empty_reg_ok": rp_empty}
 
 
 # ------------------------------------------------------------------------------------------
@@ -407,6 +569,8 @@ def render():
     A("def measureFmt : Str × Str × Str := (%s, %s, %s)" % tuple(map(lean_str, e["measure_fmt"])))
     A("/-- `_qasm_str`: is the parameter test `is not None` (true) or truthiness (false)? -/")
     A("def argTestNotNone : Bool := " + ("true" if e["arg_test"] == "notNone" else "false"))
+    A("/-- `_qasm_str` prints a parameter with `_qasm_real`: `1e-20` becomes `1.0e-20` -/")
+    A("def exportPadsExponent : Bool := " + ("true" if e["pads_exp"] else "false"))
     A("/-- `_qasm_str`: container types joined element-wise -/")
     A("def seqKinds : List Str := " + lean_list([lean_str(k) for k in e["seq_kinds"]]))
     A("")
@@ -434,6 +598,16 @@ def render():
     A("")
     A("/-- `_custom_gate` raises ValueError when a body statement repeats a qubit argument -/")
     A("def customChecksRepeat : Bool := " + ("true" if i["body_dup"] else "false"))
+    A("")
+    A("/-- `_final_pass`: `if(c==k)` with `k >= 2**len(c)` adds nothing (the operation is only checked) -/")
+    A("def ifSkipsUnsat : Bool := " + ("true" if i["if_skip"] else "false"))
+    A("/-- `_final_pass`: the value of `if(c==k)` is passed on bit-reversed (first classical control = most")
+    A("significant bit of `classical_control_value`, `c[0]` = least significant bit of `k`) -/")
+    A("def ifReversesValue : Bool := " + ("true" if i["if_rev"] else "false"))
+    A("/-- barrier statements are checked (declared registers, indices; formal qubits inside a gate body) -/")
+    A("def barrierChecked : Bool := " + ("true" if i["barrier_checked"] else "false"))
+    A("/-- `_regs_processor` / `_gate_add`: a statement on empty registers has no instance (arity still checked) -/")
+    A("def emptyRegOk : Bool := " + ("true" if i["empty_reg_ok"] else "false"))
     A("")
     A("/-- user gates installed by `_get_qiskit_gates` (bodies recognised by the translator) -/")
     A("def userGates : List Str := " + lean_list([lean_str(x) for x in i["user_gates"]]))
